@@ -13,13 +13,15 @@ C2  branch polarity          `if not X: A else: B` -> `if X: B else: A` (same fo
 C3  guard form               `if C: BODY else: raise E` -> `if not C: raise E` ; BODY      and
                              `if C: ...; return/raise  else: REST` -> `if C: ...; return/raise` ; REST
                              `if C: raise E elif D: ...` -> `if C: raise E` ; `if D: ...`   (leading guard arms of a chain)
+C9  two-armed assignment     `if c: x = A else: x = B` -> `x = A if c else B`; a bare `x: T` inside a function is dropped
 C4  see-through of helpers   a function the rule tables do not know (absent from the calibrated tree, see
                              known_names.json) whose every reference is a direct call in an inlinable position is
                              inlined at its call sites and dropped; returns in tail position become assignments
 C5  see-through of locals    a local the tables do not know, bound once to a pure expression (names, attributes,
                              subscripts, constants, operators, type()/len()/slice()/isinstance()), is replaced by that
                              expression
-C5b/c temporaries            `t = E` ; S(t) -> S(E) for a single use in the next statement; `t = E` ; `P = t` -> `P = E` ; `t = P`
+C5b/c temporaries            `t = E` ; S(t) -> S(E) for a single use in the next statement; `t = E` ; `P = t` -> `P = E` ; `t = P`;
+                             `_, b = CALL` ; S(b) -> S(CALL[1])
 C7  loop -> comprehension    `acc = {}` ; `for T in IT: [if c:] acc[K] = V` -> `acc = {K: V for T in IT if c}` (unknown acc)
 C8  canonical local names    locals / comprehension / lambda variables of a known function get the names the tables know
                              when old and new binders correspond unambiguously (same order, anchors by equal names)
@@ -203,16 +205,36 @@ def _canon_children(st: ast.AST) -> None:
         c.body = _canon_block(c.body)
 
 
-def _canon_block(stmts: list[ast.stmt]) -> list[ast.stmt]:
-    """C2 + C3 on one statement list (children first)."""
+def _assign_pair(st: ast.If):
+    """`if c: x = A else: x = B` (one plain assignment to the same name in each arm) -> (name target, A, B)."""
+    if len(st.body) != 1 or len(st.orelse) != 1:
+        return None
+    a, b = st.body[0], st.orelse[0]
+    if isinstance(a, ast.Assign) and isinstance(b, ast.Assign) and len(a.targets) == 1 and len(b.targets) == 1 and isinstance(a.targets[0], ast.Name) and isinstance(b.targets[0], ast.Name) and a.targets[0].id == b.targets[0].id:
+        return a.targets[0], a.value, b.value
+    return None
+
+
+def _canon_block(stmts: list[ast.stmt], in_function: bool = True) -> list[ast.stmt]:
+    """C2 + C3 (+ C9: two-armed assignment -> conditional expression; bare local annotations dropped) on one statement
+    list (children first)."""
     out: list[ast.stmt] = []
     for st in stmts:
+        if isinstance(st, ast.AnnAssign) and st.value is None and isinstance(st.target, ast.Name) and getattr(st, "_in_function", False):
+            continue  # `x: T` inside a function declares nothing at run time
         # C3c: leading guard arms of a chain are peeled off: `if C: raise E elif ...` -> `if C: raise E` ; `if ...`
         if isinstance(st, ast.If) and _is_chain_head(st) and _only_raise(st.body):
             out.append(ast.copy_location(ast.If(test=st.test, body=st.body, orelse=[]), st))
             out.extend(_canon_block(st.orelse))
             continue
         _canon_children(st)
+        if isinstance(st, ast.If) and st.orelse and not _is_chain_head(st) and _assign_pair(st) is not None:
+            tgt, va, vb = _assign_pair(st)  # C9
+            e = ast.IfExp(test=st.test, body=va, orelse=vb)
+            if _is_negative(e.test):
+                e = ast.IfExp(test=negate(e.test), body=vb, orelse=va)
+            out.append(ast.fix_missing_locations(ast.copy_location(ast.Assign(targets=[tgt], value=ast.copy_location(e, st), lineno=st.lineno), st)))
+            continue
         if isinstance(st, ast.If) and st.orelse and not _is_chain_head(st):
             if _only_raise(st.orelse) and not _only_raise(st.body):  # C3a
                 out.append(ast.copy_location(ast.If(test=negate(st.test), body=st.orelse, orelse=[]), st))
@@ -229,7 +251,16 @@ def _canon_block(stmts: list[ast.stmt]) -> list[ast.stmt]:
     return out
 
 
+def _mark_function_locals(tree: ast.Module) -> None:
+    for fn in ast.walk(tree):
+        if isinstance(fn, (ast.FunctionDef, ast.AsyncFunctionDef)):
+            for n in _own_nodes(fn):
+                if isinstance(n, ast.AnnAssign):
+                    n._in_function = True
+
+
 def local_canon(tree: ast.Module) -> ast.Module:
+    _mark_function_locals(tree)
     tree = _NNF().visit(tree)
     tree = _Tests().visit(tree)
     tree = _SliceCalls().visit(tree)
@@ -548,14 +579,28 @@ def forward_temporaries(fn: ast.AST, known_locals: set[str] | None) -> int:
             for i in range(len(block) - 1):
                 st, nxt = block[i], block[i + 1]
                 tgt = _single_name_target(st)
+                value_expr = st.value if tgt is not None else None
+                if tgt is None and isinstance(st, ast.Assign) and len(st.targets) == 1 and isinstance(st.targets[0], ast.Tuple) and isinstance(st.value, ast.Call) and all(isinstance(x, ast.Name) for x in st.targets[0].elts):
+                    # C5d: `a, b = CALL` ; S(b) with a unused  ->  S(CALL[1])   (all names unknown to the tables)
+                    elts = st.targets[0].elts
+                    if all(x.id in cands and cands[x.id] is x for x in elts):
+                        loads = {x.id: [n for n in ast.walk(fn) if isinstance(n, ast.Name) and n.id == x.id and isinstance(n.ctx, ast.Load)] for x in elts}
+                        live = [x for x in elts if loads[x.id]]
+                        if len(live) == 1 and len({x.id for x in elts}) == len(elts):
+                            tgt = live[0]
+                            k = next(i for i, x in enumerate(elts) if x is tgt)
+                            value_expr = ast.copy_location(ast.Subscript(value=st.value, slice=ast.Constant(value=k), ctx=ast.Load()), st.value)
+                            ast.fix_missing_locations(value_expr)
                 if tgt is None or tgt.id not in cands or cands[tgt.id] is not tgt:
                     continue
                 name = tgt.id
                 if _printed_by_fstring(fn, name):
                     continue
                 uses = [n for n in ast.walk(fn) if isinstance(n, ast.Name) and n.id == name and isinstance(n.ctx, ast.Load)]
+                if value_expr is not st.value and isinstance(nxt, ast.Assign) and isinstance(nxt.value, ast.Name):
+                    pass
                 # C5c
-                if isinstance(nxt, ast.Assign) and len(nxt.targets) == 1 and isinstance(nxt.targets[0], (ast.Attribute, ast.Subscript)) and isinstance(nxt.value, ast.Name) and nxt.value.id == name and _is_pure(nxt.targets[0]) and name not in {x.id for x in ast.walk(nxt.targets[0]) if isinstance(x, ast.Name)} and len(uses) > 1:
+                if value_expr is st.value and isinstance(nxt, ast.Assign) and len(nxt.targets) == 1 and isinstance(nxt.targets[0], (ast.Attribute, ast.Subscript)) and isinstance(nxt.value, ast.Name) and nxt.value.id == name and _is_pure(nxt.targets[0]) and name not in {x.id for x in ast.walk(nxt.targets[0]) if isinstance(x, ast.Name)} and len(uses) > 1:
                     path_load = copy.deepcopy(nxt.targets[0])
                     for x in ast.walk(path_load):
                         if hasattr(x, "ctx"):
@@ -588,7 +633,7 @@ def forward_temporaries(fn: ast.AST, known_locals: set[str] | None) -> int:
                     n = n_parent
                 if deferred:
                     continue
-                sub = _Subst({name: st.value})
+                sub = _Subst({name: value_expr})
                 block[i + 1] = sub.visit(nxt)
                 del block[i]
                 done += 1
@@ -784,21 +829,29 @@ def _bind_args(h: Helper, call: ast.Call, receiver: ast.expr | None) -> dict[str
     return out
 
 
-def _instantiate(h: Helper, call: ast.Call, receiver: ast.expr | None, caller: ast.AST, uid: int) -> tuple[list[ast.stmt], list[ast.stmt]] | None:
+def _instantiate(h: Helper, call: ast.Call, receiver: ast.expr | None, caller: ast.AST, uid: int, target_name: str | None = None, allow_paths: bool = False) -> tuple[list[ast.stmt], list[ast.stmt]] | None:
     """(prelude statements binding complex arguments, helper body with names substituted); returns kept as Return."""
     binding = _bind_args(h, call, receiver)
     if binding is None:
         return None
     body = copy.deepcopy(h.body)
     holder = ast.Module(body=body, type_ignores=[])
+    # every inlined instance gets its own source positions (same line, shifted column): analyses that name allocation
+    # or call sites by position must not merge the instances of one helper
+    for n in ast.walk(holder):
+        if hasattr(n, "col_offset"):
+            n.col_offset += 10000 * uid
+            if getattr(n, "end_col_offset", None) is not None:
+                n.end_col_offset += 10000 * uid
     caller_names = _all_names(caller)
     assigned_in_helper = set(_bound_names(h.node))
     # locals of the helper that clash with names of the caller are renamed
-    ren = {n: f"{n}__{h.node.name.strip('_')}{uid}" for n in assigned_in_helper if n in caller_names and n not in binding}
+    # (a helper local that has the very name the call's result is assigned to may simply be that variable)
+    ren = {n: f"{n}__{h.node.name.strip('_')}{uid}" for n in assigned_in_helper if n in caller_names and n not in binding and n != target_name}
     prelude: list[ast.stmt] = []
     subst: dict[str, ast.expr] = {}
     for p, v in binding.items():
-        direct = isinstance(v, (ast.Name, ast.Constant)) or (h.is_expr and _simple_arg(v))
+        direct = isinstance(v, (ast.Name, ast.Constant)) or ((h.is_expr or allow_paths) and _simple_arg(v)) or (allow_paths and isinstance(v, ast.Call))
         if direct and p not in assigned_in_helper:
             subst[p] = v
         else:
@@ -968,7 +1021,13 @@ class _Inliner:
 
     def _expand(self, h: Helper, stmt: ast.stmt, call: ast.Call, receiver, fn) -> list[ast.stmt] | None:
         self.uid += 1
-        inst = _instantiate(h, call, receiver, fn, self.uid)
+        tname = None
+        if isinstance(stmt, ast.Assign) and len(stmt.targets) == 1 and isinstance(stmt.targets[0], ast.Name) and stmt.value is call:
+            tname = stmt.targets[0].id
+            # only when the helper never reads that name before binding it itself (it is not one of its parameters)
+            if tname in _params(h.node):
+                tname = None
+        inst = _instantiate(h, call, receiver, fn, self.uid, tname)
         if inst is None:
             return None
         prelude, body = inst
@@ -1009,8 +1068,25 @@ class _Inliner:
             # procedure used as a value: x = None
             body = body + [ast.copy_location(ast.Return(value=None), stmt)]
         body = _retarget(body, make)
+        body = [b for b in body if not (isinstance(b, ast.Assign) and len(b.targets) == 1 and isinstance(b.targets[0], ast.Name) and isinstance(b.value, ast.Name) and b.targets[0].id == b.value.id)]
         out = prelude + body
         return out or [ast.copy_location(ast.Pass(), stmt)]
+
+
+def composed_call(helper_node: ast.FunctionDef, is_method: bool, call: ast.Call, caller: ast.AST) -> list[ast.stmt] | None:
+    """Analysis view (not a rewrite): the body of a known helper with its parameters replaced by the argument expressions
+    of one call site, so that a rule can check caller and callee *together* and does not depend on where the interface
+    between them was drawn (which side translates an index, which names the parameters have)."""
+    cls = ast.ClassDef(name="_", bases=[], keywords=[], body=[], decorator_list=[]) if is_method else None
+    h = Helper("view", helper_node, cls, "")
+    receiver = call.func.value if isinstance(call.func, ast.Attribute) else None
+    if h.static:
+        receiver = None
+    inst = _instantiate(h, call, receiver, caller, 990, allow_paths=True)
+    if inst is None:
+        return None
+    prelude, body = inst
+    return prelude + body
 
 
 # ------------------------------------------------------------------------------------------------ C6 nested def -> lambda
